@@ -811,6 +811,7 @@ func (m *endpointManager) resolveWorkloadEndpoints() {
 							delete(m.sourceSpoofingConfig, oldWorkload.Name)
 							m.rpfSkipChainDirty = true
 						}
+						m.updatePolicyGroups(oldWorkload.Name, nil)
 					}
 					m.routeTable.SetRoutes(oldWorkload.Name, nil)
 					m.wlIfaceNamesToReconfigure.Discard(oldWorkload.Name)
